@@ -524,8 +524,12 @@ static int trx_ctrl_read_cb(struct osmo_fd *ofd, unsigned int what)
 		goto rsp_error;
 	}
 
-	/* Check for response code */
-	sscanf(p + 1, "%d", &resp);
+	/* Check for response code (a response without status is malformed) */
+	if (p == NULL || sscanf(p + 1, "%d", &resp) != 1) {
+		LOGPFSML(trx->fi, (tcm->critical) ? LOGL_FATAL : LOGL_ERROR,
+			"Response message '%s' carries no status code\n", buf);
+		goto rsp_error;
+	}
 	if (resp) {
 		LOGPFSML(trx->fi, (tcm->critical) ? LOGL_FATAL : LOGL_ERROR,
 			"Transceiver rejected TRX command with "
